@@ -339,6 +339,38 @@ def wSweep (K : Bytes) (lo hi opc : Nat) : M String := do
     | .error _ => bad := bad + 1
   pure s!"fnv {hex64 h} bad={bad}"
 
+/-- full step table of the recurrence ciphers (see harness `hdr.steps`) -/
+def hdrSteps (exp : String) (K : Bytes) : M String := do
+  let base ← hdrNew exp "s" K
+  let l := if exp = "v" then 40 else 20
+  let mut h := fnvInit
+  let mut n := 0
+  for pos in [0:l] do
+    for prev in [0:256] do
+      if pos == 0 && prev != 0 then continue
+      let mut e := base
+      if pos > 0 then
+        let (e1, _) ← base.enc (List.replicate (pos - 1) 0)
+        let mut found := false
+        for x in [0:256] do
+          if found then break
+          let (c, b) ← e1.enc [UInt8.ofNat x]
+          if b.headD 0 == UInt8.ofNat prev then
+            e := c
+            found := true
+        if !found then throw "bad-op"
+      let mut d := base
+      if pos > 0 then
+        let (d1, _) ← base.dec (List.replicate (pos - 1) 0 ++ [UInt8.ofNat prev])
+        d := d1
+      for x in [0:256] do
+        let (_, b) ← e.enc [UInt8.ofNat x]
+        h := fnvStep h (b.headD 0)
+        let (_, b2) ← d.dec [UInt8.ofNat x]
+        h := fnvStep h (b2.headD 0)
+        n := n + 1
+  pure s!"fnv {hex64 h} n={n}"
+
 def lcgNext (x : UInt64) : UInt64 := x * 6364136223846793005 + 1442695040888963407
 
 /-- public-key sweep over the family "every byte is 0 or N's byte" -/
@@ -537,6 +569,7 @@ def runOp (be : Backend) (args : List String) : M String := do
       dout := dout ++ [hex out]
     let j := fun (l : List String) => if l.isEmpty then "-" else ",".intercalate l
     pure s!"{j eo} {j dout}"
+  | ["hdr.steps", exp, k] => hdrSteps exp (unhex k)
   | ["w.sweep", k, lo, hi, opc] => wSweep (unhex k) (nat! lo) (nat! hi) (nat! opc)
   | ["pin.hash", pin, seed, ss, cs] => do
     match ← liftOut (pinCalculateHash C (nat! pin) (nat! seed) (unhex ss) (unhex cs)) with
